@@ -743,6 +743,46 @@ func forcedPayload(args []string) int {
 			break
 		}
 	}
+	// twin requests: two calls with byte-identical procedure and payload, pending at the same time (real callers send the same
+	// payload-less request to several peers at once).  The handler answers each after 100 ms, far inside the timeout: each call
+	// must get an answer without one of its attempts timing out.  A finding must show in three consecutive rounds.
+	twinRounds, twinBad := 0, 0
+	for round := 0; round < 6 && res.Violation == ""; round++ {
+		a, b := plainCall(next(), []int{100000}, []int{-1}), plainCall(next(), []int{100000}, []int{-1})
+		b.Payload.N = a.Payload.N
+		var ra, rb callResult
+		var wg sync.WaitGroup
+		wg.Add(2)
+		go func() { defer wg.Done(); ra = w.doCall(a, bound) }()
+		go func() { defer wg.Done(); rb = w.doCall(b, bound) }()
+		wg.Wait()
+		res.Others = append(res.Others, ra, rb)
+		twinRounds++
+		if ra.Hung || rb.Hung {
+			res.Violation = "request-never-returns:twin-requests"
+			res.What = fmt.Sprintf("two simultaneous requests with identical procedure and payload: RequestFrom did not return within %v", bound)
+			break
+		}
+		produced := 0
+		for _, e := range rec.snapshot() {
+			if e.Point == "rs.return" && w.nonceOf(e.ID) == a.Payload.N {
+				produced++
+			}
+		}
+		clean := ra.Res == "resp" && rb.Res == "resp" && ra.DurUs < T.Microseconds() && rb.DurUs < T.Microseconds() // shorter than one timeout: no attempt timed out
+		if clean || produced < 2 {
+			twinBad = 0
+			continue
+		}
+		twinBad++
+		if twinBad >= 3 {
+			res.Violation = "miscorrelated-response:twin-requests"
+			res.What = fmt.Sprintf("two simultaneous requests with identical procedure and payload (handler answers after 100 ms, timeout %v): the handler produced %d replies, "+
+				"but the calls ended %s after %d ms / %s after %d ms in three consecutive rounds - a reply was delivered to the other request or lost",
+				T, produced, ra.Res, ra.DurUs/1000, rb.Res, rb.DurUs/1000)
+		}
+	}
+	res.Shape["twin_rounds"] = twinRounds
 	// replies that were produced and never reached the lookup of the requesting host
 	waitFor(3*time.Second, func() bool { return int64(rec.count("res.locked")) >= atomic.LoadInt64(&w.responses) })
 	evs := rec.snapshot()
